@@ -124,9 +124,14 @@ var annotVariants = []*string{nil, strp(""), strp("true"), strp("do not delete: 
 
 func strp(s string) *string { return &s }
 
+// applyAnnot sets the no-delete annotation; every annotated node also carries well-known annotations of other tools with
+// values that mean "off" there (what protects a node is escalator's own key and nothing else; map iteration order is random)
 func applyAnnot(n *v1.Node, a *string) {
 	if a != nil {
 		annotated(noDeleteKey, *a)(n)
+		annotated("cluster-autoscaler.kubernetes.io/scale-down-disabled", "false")(n)
+		annotated("node.alpha.kubernetes.io/ttl", "0")(n)
+		annotated("atlassian.com/no-delete-reason", "")(n)
 	}
 }
 
@@ -633,7 +638,38 @@ func (c *streamCtx) dirC04() []genCase {
 		b.done()
 		out = append(out, single(s, fmt.Sprintf("C04 force removal before the increase, desired=%d", 6+dOff)))
 	}
-	return c.sample(out, 330)
+	res := c.sample(out, 330)
+	// force removals of which one is refused, then a scale-up (small need: no clamp; large need: clamp binding) in set-desired
+	// and in fleet mode: the request builds on the desired size as it REALLY stands after the accepted terminations
+	for i, v := range []struct {
+		pct    int64
+		max    int
+		fleet  bool
+		failAt int
+	}{{80, 20, false, 1}, {80, 20, false, 2}, {400, 7, false, 1}, {400, 7, true, 1}, {80, 20, true, 2}, {400, 8, false, 0}} {
+		if v.fleet && !c.thorough && i > 3 {
+			continue
+		}
+		s := newSpec(base, nsOffsets[i%3])
+		b := s.group("g1")
+		b.o.MaxNodes, b.asgMax = v.max, int64(v.max)+3
+		for k := 0; k < 4; k++ {
+			b.node(k, int64(7200+k))
+		}
+		for k := 0; k < 3; k++ {
+			b.node(4+k, int64(8000+k), forced())
+		}
+		if v.fleet {
+			b.template = "lt-g1"
+			b.aws.FleetInstances = [][]string{mkIDs("i-fleet-", 8)}
+		}
+		b.aws.TermInAsgFail = []string{b.instanceOf(4 + v.failAt)}
+		b.aws.ErrCode = []string{"", "Throttling"}[i%2]
+		b.util(v.pct, 0, true, false)
+		b.done()
+		res = append(res, single(s, fmt.Sprintf("C04 %d-th of three force removals refused, then a scale-up (band %d, max %d, fleet %v)", v.failAt+1, v.pct, v.max, v.fleet)))
+	}
+	return res
 }
 
 // ---------- C07: reuse of tainted nodes ----------
